@@ -61,17 +61,17 @@ fn main() {
         println!("(replayed twice, identical observations)");
         return;
     }
-    let code = match cmd {
-        "C09" => checks::c09::run(tier),
-        _ => usage(),
+    let code = match checks::dispatch(cmd) {
+        Some((run, _)) => run(tier),
+        None => usage(),
     };
     std::process::exit(code);
 }
 
 fn replay_fn(cmd: &str) -> fn(&Value) -> String {
-    match cmd {
-        "C09" => checks::c09::replay,
-        _ => usage(),
+    match checks::dispatch(cmd) {
+        Some((_, replay)) => replay,
+        None => usage(),
     }
 }
 
